@@ -295,6 +295,13 @@ struct Run
         ++c.evaluations;
         Packet p = sp.make();
         PacketSnap before = snapPacket(p, sp.hasPayload);
+        if (sp.hasPayload)
+        {
+            // a packet given its own payload back keeps it
+            p.setPayload(p.getPayload());
+            if (snapPacket(p, true) != before)
+                fail("self-set-payload-changes-object", "p.setPayload(p.getPayload()) changed the packet", sp, sp);
+        }
         Packet& alias = p;
         p = alias;
         if (snapPacket(p, sp.hasPayload) != before)
@@ -398,6 +405,22 @@ struct Run
             if (snapPayload(asg) != sa || snapPayload(mv) != sa || snapPayload(a) != sa || sa.bytes != b)
                 c.violation("C14:payload-copy-or-move-differs-from-source", "payload re-typed in place to 0x" + std::to_string(t) + " loses content when copied", "payload bytes " + hex(b, 40));
             c.count("payload_value_checks");
+        }
+        // PayloadType and TECMP::PayloadType as values: ==, != and the three views of the 32-bit word
+        for (int i = 0; i < 200; ++i)
+        {
+            uint32_t x = static_cast<uint32_t>(r.next()) & (r.chance(1, 2) ? 0xFFFFu : 0xFFFFFFFFu);
+            uint32_t y = r.chance(1, 3) ? x : (r.chance(1, 2) ? x ^ (1u << r.below(16)) : static_cast<uint32_t>(r.next()) & 0xFFFFu);
+            PayloadType a(x), b(y), a2(a);
+            TECMP::PayloadType ta(x), tb(y);
+            ++c.evaluations;
+            if ((a == b) != (x == y) || (a != b) == (a == b) || !(a == a2) || (b == a) != (a == b))
+                c.violation("C14:payload-type-equality-disagrees-with-value", "PayloadType(" + std::to_string(x) + ") versus PayloadType(" + std::to_string(y) + ")", "PayloadType");
+            if ((ta == tb) != (x == y) || (ta != tb) == (ta == tb))
+                c.violation("C14:payload-type-equality-disagrees-with-value", "TECMP::PayloadType(" + std::to_string(x) + ") versus (" + std::to_string(y) + ")", "TECMP::PayloadType");
+            PayloadType viaParts(static_cast<ASAM::CMP::CmpHeader::MessageType>((x >> 8) & 0xFF), static_cast<uint8_t>(x & 0xFF));
+            if (viaParts.getType() != (x & 0xFFFF))
+                c.violation("C14:payload-type-equality-disagrees-with-value", "PayloadType(messageType, raw) gives another word than PayloadType(word)", "PayloadType");
         }
         // zero-length payloads
         {
